@@ -103,6 +103,27 @@ class BuildError(Exception):
     pass
 
 
+class locked:
+    """Cross-process lock (flock) so that concurrently running checks never share a staging directory, a cargo
+    target directory or a half-written fact memo entry."""
+
+    def __init__(self, name):
+        d = os.path.join(WORK, 'locks')
+        os.makedirs(d, exist_ok=True)
+        self.path = os.path.join(d, name + '.lock')
+
+    def __enter__(self):
+        import fcntl
+        self.fh = open(self.path, 'w')
+        fcntl.flock(self.fh, fcntl.LOCK_EX)
+        return self
+
+    def __exit__(self, *a):
+        import fcntl
+        fcntl.flock(self.fh, fcntl.LOCK_UN)
+        self.fh.close()
+
+
 def _clear_fingerprints(target_dir, names):
     fp = os.path.join(target_dir, 'debug', '.fingerprint')
     if not os.path.isdir(fp):
@@ -139,6 +160,8 @@ def build_configs(cfgs):
     root = repo_root()
     th = tree_hash(root)
     rid = hashlib.sha256(root.encode()).hexdigest()[:8]
+    _note_root(rid, root)
+    _touch_memo(th)
     res = {}
     errors = []
     lock = threading.Lock()
@@ -148,6 +171,10 @@ def build_configs(cfgs):
         want = CRATES_OF[cfg]
         paths = {c: os.path.join(out_dir, c + '.json') for c in want}
         marker = os.path.join(out_dir, '.complete')
+        with locked('cfg-%s-%s' % (rid, cfg)):
+            return one_locked(cfg, out_dir, want, paths, marker)
+
+    def one_locked(cfg, out_dir, want, paths, marker):
         if not (os.path.exists(marker) and all(os.path.exists(p) for p in paths.values())):
             start = time.time()
             target = os.path.join(WORK, 'target-%s-%s' % (rid, cfg))
@@ -179,16 +206,69 @@ def build_configs(cfgs):
 
 
 def _gc_facts(keep):
-    """Keep the fact memo small: drop memo entries of other tree states (older than a day or
-    beyond the 6 most recent)."""
+    """Keep the fact memo small: drop memo entries of other tree states that were not used for an hour, beyond the 6
+    most recently used (an entry in use by a concurrently running check is touched when that check starts)."""
     d = os.path.join(WORK, 'facts')
     if not os.path.isdir(d):
         return
-    ents = [(os.path.getmtime(os.path.join(d, e)), e) for e in os.listdir(d) if e != keep]
+    now = time.time()
+    ents = []
+    for e in os.listdir(d):
+        if e == keep:
+            continue
+        try:
+            ents.append((os.path.getmtime(os.path.join(d, e)), e))
+        except OSError:
+            pass
     ents.sort(reverse=True)
-    for i, (_, e) in enumerate(ents):
-        if i >= 6:
+    for i, (mt, e) in enumerate(ents):
+        if i >= 6 and now - mt > 3600:
             shutil.rmtree(os.path.join(d, e), ignore_errors=True)
+    _gc_targets()
+
+
+def _note_root(rid, root):
+    d = os.path.join(WORK, 'roots')
+    os.makedirs(d, exist_ok=True)
+    p = os.path.join(d, rid)
+    if not os.path.exists(p):
+        with open(p, 'w') as f:
+            f.write(root)
+
+
+def _touch_memo(th):
+    d = os.path.join(WORK, 'facts', th)
+    os.makedirs(d, exist_ok=True)
+    os.utime(d, None)
+
+
+def purge_repo_cache(root):
+    """remove the cargo target directories and staged fixtures kept for a scratch tree"""
+    root = os.path.abspath(root)
+    rid = hashlib.sha256(root.encode()).hexdigest()[:8]
+    for e in os.listdir(WORK):
+        if e.startswith('target-%s-' % rid) or e == 'fixtures-%s' % rid:
+            shutil.rmtree(os.path.join(WORK, e), ignore_errors=True)
+    try:
+        os.unlink(os.path.join(WORK, 'roots', rid))
+    except OSError:
+        pass
+
+
+def _gc_targets():
+    """target directories are keyed by the path of the tree they were built from: drop those of scratch trees that no
+    longer exist"""
+    d = os.path.join(WORK, 'roots')
+    if not os.path.isdir(d):
+        return
+    for rid in os.listdir(d):
+        try:
+            root = open(os.path.join(d, rid)).read().strip()
+            age = time.time() - os.path.getmtime(os.path.join(d, rid))
+        except OSError:
+            continue
+        if root and not os.path.exists(root) and age > 1800:
+            purge_repo_cache(root)
 
 
 def build_fixture(name, src_dir, features=None):
@@ -199,10 +279,17 @@ def build_fixture(name, src_dir, features=None):
     root = repo_root()
     th = tree_hash(root, extra=[tree_hash_dir(src_dir)])
     rid = hashlib.sha256(root.encode()).hexdigest()[:8]
+    _note_root(rid, root)
+    _touch_memo(th)
     crate = 'vf_' + name
     out_dir = os.path.join(WORK, 'facts', th, 'fx-' + name)
     path = os.path.join(out_dir, crate + '.json')
     marker = os.path.join(out_dir, '.complete')
+    with locked('fx-%s' % rid):
+        return _build_fixture_locked(name, src_dir, root, rid, crate, out_dir, path, marker)
+
+
+def _build_fixture_locked(name, src_dir, root, rid, crate, out_dir, path, marker):
     if os.path.exists(marker) and os.path.exists(path):
         return path
     stage = os.path.join(WORK, 'fixtures-%s' % rid, name)
